@@ -9,6 +9,7 @@
 //! (the model's Section variable `decompress` is instantiated with this table).
 //! route: 0 /content/<id>  1 /r/undelegated-content/<id>  2 /preview/<id>
 //!        3 /r/sat/<sat of slot>/at/<idx>/content  4 /content/<malformed id>  5 unknown path
+//!        6 k: the k-th of a list of other explorer routes (observation: 1 iff a non-empty policy is present)
 //! Observation: status ncsp {len bytes}* cache(0 none,1 immutable,2 no-store,3 other)
 //!   bodykind: 0 (not compared: error text) | 1 ct? ce? len bytes (content response) | 2 nrefs refs.. (html template;
 //!   refs = inscriptions of the state whose id occurs in the page)
@@ -122,6 +123,7 @@ impl Case {
         l.push(self.slot);
         l.push(self.idx);
       }
+      6 => l.push(self.slot),
       _ => {}
     }
     put_opt(&mut l, &self.ae);
@@ -158,6 +160,7 @@ impl Case {
         slot = c.u64();
         idx = c.z().i64();
       }
+      6 => slot = c.u64(),
       _ => {}
     }
     let ae = get_opt(&mut c);
@@ -368,6 +371,11 @@ fn run_in(world: &mut World, case: &Case) -> Outcome {
       format!("/r/sat/{}/at/{}/content", sat, case.idx)
     }
     4 => "/content/nonsense".to_string(),
+    6 => {
+      let id0 = world.resolve(&Ref::Known(0));
+      let o = OTHER_ROUTES[case.slot as usize % OTHER_ROUTES.len()];
+      o.replace("<id>", &id0.to_string()).replace("<txid>", &id0.txid.to_string())
+    }
     _ => "/no/such/route".to_string(),
   };
   let mut headers: Vec<(&str, Vec<u8>)> = Vec::new();
@@ -378,8 +386,17 @@ fn run_in(world: &mut World, case: &Case) -> Outcome {
 
   // ---- observation
   let mut obs = L::new();
-  obs.push(r.status);
   let csp = r.all("content-security-policy");
+  if case.route == 6 {
+    // any other explorer route: only the presence of a policy is observed
+    let ok = !csp.is_empty() && csp.iter().all(|v| !v.is_empty());
+    return Outcome {
+      obs: L::new().p(ok).done(),
+      oracle: if ok { Ok(()) } else { Err(format!("response {} without Content-Security-Policy on {path}", r.status)) },
+      cat: format!("route6/{}/{}", OTHER_ROUTES[case.slot as usize % OTHER_ROUTES.len()].split('/').nth(1).unwrap_or(""), r.status),
+    };
+  }
+  obs.push(r.status);
   obs.push(csp.len());
   for v in &csp {
     obs.bytes(v);
@@ -555,6 +572,14 @@ fn run_in(world: &mut World, case: &Case) -> Outcome {
   Outcome { obs: obs.done(), oracle: fail.map(Err).unwrap_or(Ok(())), cat }
 }
 
+/// other explorer routes (every response must carry a policy): pages, redirects, errors, assets
+const OTHER_ROUTES: [&str; 40] = [
+  "/", "/blocks", "/blockcount", "/blockheight", "/blockhash", "/blockhash/0", "/blocktime", "/clock", "/status", "/inscriptions",
+  "/inscriptions/1", "/collections", "/galleries", "/runes", "/rare.txt", "/static/index.css", "/static/nope", "/favicon.ico", "/feed.xml", "/faq",
+  "/bounties", "/install.sh", "/block/0", "/block/99999", "/sat/0", "/output/0000000000000000000000000000000000000000000000000000000000000000:0", "/r/blockinfo/0", "/r/blockheight", "/search/0", "/search?query=0",
+  "/update", "/offers", "/satscard", "/ordinal/0", "/input/0/0/0", "/tx/<txid>", "/decode/<txid>", "/inscription/<id>", "/children/<id>", "/r/metadata/<id>",
+];
+
 // ---------------------------------------------------------------- generator
 
 const CTS: [&str; 14] = [
@@ -660,7 +685,7 @@ pub fn gen_state(rng: &mut Rng, index_sats: bool) -> Vec<Insc> {
 }
 
 pub fn gen(rng: &mut Rng, tier: &str) -> Vec<Line> {
-  let (nstates, nconfigs, nreq) = if tier == "thorough" { (40, 6, 90) } else { (4, 4, 24) };
+  let (nstates, nconfigs, nreq) = if tier == "thorough" { (40, 6, 90) } else { (6, 4, 30) };
   let mut out = Vec::new();
   for s in 0..nstates {
     let index_sats = s % 4 != 3;
@@ -692,16 +717,23 @@ pub fn gen(rng: &mut Rng, tier: &str) -> Vec<Line> {
         }
       }
       for _ in 0..nreq {
-        let route = match rng.below(20) {
+        let route = match rng.below(24) {
           0..=6 => 0,
           7..=9 => 1,
           10..=13 => 2,
           14..=17 => 3,
           18 => 4,
-          _ => 5,
+          19 => 5,
+          _ => 6,
         };
         let target = if rng.chance(9, 10) { Ref::Known(rng.below(n as u64) as usize) } else { Ref::Missing(rng.below(50)) };
-        let slot = if rng.chance(9, 10) { inscs[rng.below(n as u64) as usize].slot } else { 99 };
+        let slot = if route == 6 {
+          rng.below(OTHER_ROUTES.len() as u64)
+        } else if rng.chance(9, 10) {
+          inscs[rng.below(n as u64) as usize].slot
+        } else {
+          99
+        };
         let idx = match rng.below(12) {
           0 => i64::MIN,
           1 => i64::MAX,
